@@ -26,11 +26,8 @@ def tripleTable (j : Json) (k : String) : List ((String × String) × Bool) :=
 
 def mkOps (env : Json) : StrOps String :=
   let low := pairTable env "lower"
-  let sub := tripleTable env "sub"
   { lower := fun s => (low.lookup s).getD (asciiLower s)
     truthy := fun s => s != ""
-    sub := fun v s => (sub.lookup (v, s)).getD false
-    chars := fun s => s.toList.map (fun c => String.singleton c)
     empty := "" }
 
 def mkMatch (env : Json) : String → String → Bool :=
@@ -165,7 +162,7 @@ def subjReqs (kind : Option String) : List (ReqAttr String) :=
   | _ => []
 
 def secName (c : Ctx String String) : String :=
-  let g := fun k => (dget c.secs k).join
+  let g := secOf c.secs
   if (g c.sp).isSome then "sp"
   else if (c.ra.bind g).isSome then "ra"
   else if ((g c.dflt).filter (·.nonEmpty)).isSome then "default"
@@ -204,6 +201,7 @@ def features (c : Ctx String String) (identity : Ava String) (required optional 
             | some f => !m.1.values.isEmpty && (match dget identity f with | some (.scalar _) => true | _ => false)
             | none => false) then ["req-scalar-values"] else []) ++
         (if ms.any (fun m => m.2.isSome && m.1.values.any (fun v => m.1.values.count v > 1)) then ["req-dup-values"] else []) ++
+        (if fns.any (fun f => fns.count f > 1 && (match dget identity f with | some (.scalar _) => true | _ => false)) then ["req-scalar-repeat"] else []) ++
         (if ms.any (fun m => match m.2 with
             | some f => f != localName S c.acs m.1 && f != S.lower m.1.name
             | none => false) then ["req-case-insensitive-match"] else [])
@@ -251,18 +249,16 @@ def handle (line : Json) : Json :=
       ("path", Json.str (op ++ "/" ++ secN ++ "/" ++ branch ++ "/" ++ (match m with | .ok _ => "ok" | .error e => errStr e))),
       ("features", jstrs feats),
       ("spec_model", specFilter c identity required optional m),
-      ("spec_impl", specFilter c identity required optional iv && unchanged),
-      ("side", Json.mkObj [("scalar_safe", scalarSafe S c.acs identity (required ++ optional)),
-                           ("distinct_values", distinctValues (required ++ optional))])]
+      ("spec_impl", specFilter c identity required optional iv && unchanged)]
   else
-    let required := parseReqs true md "required"
-    let optional := parseReqs true md "optional"
+    -- `attribute_requirement`: isRequired="true" entries are required, all others optional
+    let ras := arrD md "ras"
+    let required := (ras.filter (fun j => boolD j "required" false)).map (parseReq true)
+    let optional := (ras.filter (fun j => !boolD j "required" false)).map (parseReq true)
     let subj := subjReqs (str? md "subj")
     let req' := addSubjectReqs required subj
     let feats := features c identity req' optional
     let branch := feats.getD 1 "?"
-    let side := Json.mkObj [("scalar_safe", scalarSafe S c.acs identity (req' ++ optional)),
-                            ("distinct_values", distinctValues (req' ++ optional))]
     if op == "restrict" || op == "apply_policy" then
       let m := policyRestrict c identity required optional subj
       let iv := parseOut impl
@@ -279,8 +275,7 @@ def handle (line : Json) : Json :=
         ("path", Json.str (op ++ "/" ++ secN ++ "/" ++ branch ++ "/" ++ (match m with | .ok _ => "ok" | .error e => errStr e))),
         ("features", jstrs feats),
         ("spec_model", specRestrict c identity required optional subj m),
-        ("spec_impl", specRestrict c identity required optional subj iv && selfOk && unchanged),
-        ("side", side)]
+        ("spec_impl", specRestrict c identity required optional subj iv && selfOk && unchanged)]
     else if op == "authn_response" || op == "attribute_response" then
       let m := if op == "authn_response" then authnRelease c identity required optional subj (boolD cs "best_effort" false)
                else attributeRelease c identity required optional subj
@@ -296,8 +291,7 @@ def handle (line : Json) : Json :=
         ("features", jstrs feats),
         ("inner", outToJson inner),
         ("spec_model", specResponse c identity required optional subj m),
-        ("spec_impl", specResponse c identity required optional subj iv && unchanged),
-        ("side", side)]
+        ("spec_impl", specResponse c identity required optional subj iv && unchanged)]
     else Json.mkObj [("proto_error", Json.str ("unknown op " ++ op))]
 
 def main : IO Unit := serve handle
